@@ -201,8 +201,7 @@ def _run(prop, tier, seed, n_workers, t_start):
                     n_viol_total += 1
                     kind = v.get('kind')
                     per_kind[kind] = per_kind.get(kind, 0) + 1
-                    if per_kind[kind] <= MAX_REPORT_PER_KIND * 50:
-                        violations.append(v)
+                    violations.append(v)   # all of them: known-finding matching must see every violation
 
     if hasattr(mod, 'finalize'):
         for v in mod.finalize(agg, tier) or []:
